@@ -75,6 +75,10 @@ def oas(cov: np.ndarray, n: float, D: int) -> np.ndarray:
     tr = np.trace(cov)
     tr2 = tr**2
     tr_cov2 = np.trace(cov**2)
-    phi = ((1 - 2 / D) * tr_cov2 + tr2) / ((n + 1 - 2 / D) * tr_cov2 - tr2 / D)
+    numerator = (1 - 2 / D) * tr_cov2 + tr2
+    denominator = (n + 1 - 2 / D) * tr_cov2 - tr2 / D
+    # the shrinkage coefficient is a convex weight: shrink completely when the
+    # (local) sample is too small for the estimate
+    phi = min(1.0, numerator / denominator) if denominator > 0 else 1.0
 
     return (1 - phi) * cov + phi * np.eye(D) * tr / D
